@@ -21,7 +21,7 @@ HERE = os.path.dirname(os.path.abspath(__file__))
 VERIF = os.path.dirname(HERE)
 sys.path.insert(0, VERIF)
 
-from vlib import common  # noqa: E402
+from vlib import common, suitemon  # noqa: E402
 
 PY = sys.executable
 
@@ -67,6 +67,8 @@ def run_workers(prop, cases, jobs, tmpdir, shard_timeout, tier='quick'):
     shards = [[] for _ in range(n)]
     for i, c in enumerate(cases):
         shards[i % n].append(c)
+    for sh in shards:
+        sh.sort(key=lambda c: c.get('kind') != '__suite__')      # the long suite case starts first in its shard (stable sort)
     env = dict(os.environ)
     env.update({'PYTHONHASHSEED': '0', 'PYTHONDONTWRITEBYTECODE': '1', 'TQDM_DISABLE': '1',
                 'OMP_NUM_THREADS': '1', 'OPENBLAS_NUM_THREADS': '1', 'MKL_NUM_THREADS': '1',
@@ -178,6 +180,9 @@ def main():
 
     t0 = time.time()
     cases = mod.gen_cases(a.seed, tier)
+    if prop in suitemon.PROPS and not os.environ.get('VERIF_NO_SUITE'):
+        # one more workload: the repository's own tests under this property's passive monitors (vlib/suitemon.py)
+        cases.append({'kind': '__suite__', 'property': prop})      # appended: case indices of the generated cases stay put
     if a.limit:
         cases = cases[:a.limit]
     for i, c in enumerate(cases):
@@ -214,7 +219,7 @@ def main():
             nontrivial_hashes.add(r['hash'])
         if r['status'] == 'violated':
             violated.append((c, r))
-        elif r['status'] == 'error':
+        elif r['status'] in ('error', 'inconclusive'):
             errors.append((c, r))
 
     known = [k for k in load_known() if k.get('property') == prop and k['status'] == 'open']
@@ -250,6 +255,9 @@ def main():
             replay_paths.append((path, unknown))
 
     req = mod.required(tier) if hasattr(mod, 'required') else {}
+    if prop in suitemon.PROPS and not os.environ.get('VERIF_NO_SUITE') and not a.limit:
+        req.setdefault('buckets', {})['suite-under-monitors'] = 1
+        req.setdefault('counters', {}).update({'suite_tests_passed': 50, 'suite_monitor_checks': 20})
     shortfalls = []
     for k, m in req.get('buckets', {}).items():
         if buckets.get(k, 0) < m:
